@@ -58,6 +58,8 @@ func runC05(c *Ctx) {
 	}
 	R.Rule("C05.R6", "what the gate let through is what the caller gets: the entry points return the sanitiser's output unmodified (= C15.R1, cited) — a normalisation of the finished output (dropping bytes, case folding) can re-form a script/style tag from a name that passed the gate")
 	c15FunnelRule(c, "C05.R6")
+	R.Rule("C05.R8", "raw token data is written only under allowUnsafe (= C06.R1, cited for every arm): the tokenizer delivers the content of iframe, noembed, noframes, xmp … as one raw text token, <script> markup included — written unescaped it is live markup again")
+	rawOnlyUnderUnsafe(sc, "C05.R8", "text can reach the output unescaped without AllowUnsafe — script or style markup inside a raw-text element becomes live")
 	R.Rule("C05.R7", "what is not a tag cannot become one (= C20.R3 / C01.R1, cited): every destination write of sanitize is Token.String() (or a space, or raw data, whose allowUnsafe guard is R2b/C06.R1) — a comment or text written in pieces or through another escaper can close itself and re-form a script element")
 	singleSerialiser(c, "C05.R7", "text or comment data that the tokenizer decoded is written without the escaping that keeps it from being read as markup — a <script> can re-form in the output")
 	R.Rule("C05.R5", "the name the gate judges is the name that is written: token.Data is never stored to in sanitize after the token was read")
